@@ -486,6 +486,9 @@ def xstack_effect(opcode, opc, oparg: int = 0, jump=None):
         return -2 if oparg == 3 else -1
     elif opname == "LOAD_ATTR" and version_tuple >= (3, 12):
         return 1 if oparg & 1 else 0
+    elif opname == "FORMAT_VALUE":
+        # flag 0x04: a format spec is on the stack, too
+        return -1 if oparg & 0x04 else 0
     elif opname == "MAKE_FUNCTION":
         if version_tuple >= (3, 5):
             if 0 <= oparg <= 10:
